@@ -6,11 +6,11 @@ from pathlib import Path
 HERE = Path(__file__).resolve().parent
 PY = "/venv/bin/python /verif/check.py"
 
-HYGIENE = (" On every function these rules pass through (and its callees) ten exact Python-semantics lints run as rule H"
+HYGIENE = (" On every function these rules pass through (and its callees) twelve exact Python-semantics lints run as rule H"
            " (sa/hygiene.py, DESIGN §8.2c): no state kept in a mutable default argument, no single-pass iterator consumed twice or inside"
            " a loop (also across a call), no stored closure over a loop variable, no regex flag in a count/maxsplit position, no"
            " comprehension clause reading a name bound by a later clause, no table entries glued by a missing comma, no enum alias, no"
-           " click option whose kind disagrees with the annotated parameter it fills, no text-mode file I/O without an explicit encoding, no class table attribute that is a string where its siblings have a sequence. The inventory of indirection on the same scope (decorators, special methods, overrides, class / field options, bases, library callbacks, import-time statements; sa/inventory.py, DESIGN §8.2d) must equal the confirmed one - a deviation is reported as not decided (exit 2), never as a violation.")
+           " click option whose kind disagrees with the annotated parameter it fills, no text-mode file I/O without an explicit encoding, no class table attribute that is a string where its siblings have a sequence, no name left unbound by a handler that swallows an exception, no `if …: pass` check without consequence. The inventory of indirection on the same scope (decorators, special methods, overrides, class / field options, bases, library callbacks, import-time statements; sa/inventory.py, DESIGN §8.2d) must equal the confirmed one - a deviation is reported as not decided (exit 2), never as a violation.")
 
 # property -> (technique, level text, level note, design ref)
 CHECKS: dict[str, tuple[str, str, str, str]] = {
@@ -33,8 +33,8 @@ CHECKS: dict[str, tuple[str, str, str, str]] = {
         " prunes/yields accordingly, that every call chain enumerating files forwards the include flags, the"
         " VCS strategy and the subset unchanged, and that VCS readers' flags and separators agree. Necessary"
         " structural conditions decided for all paths/names; Git's own ignore answer is an external run-time"
-        " oracle and is not decided. VCS membership tests (is_ignored / is_submodule of every strategy) compare paths of the same base (units-of-measure check: query made root-relative, collected sets root-relative); the report's file list is subset_files(F) whenever F was given, even empty. Paths printed by VCS commands keep their exact spelling (no whitespace strip, no lossy decode). FileReport equality, if defined, includes the file's full path (reports are collected in a set). The argv of git's ignored-files query equals the confirmed flag set, and VCS commands inherit the caller's environment (env= must extend os.environ). is_submodule answers from the VCS's own list only (no probe of the tree). A VCS strategy keeps the project root spelled as given (not resolved, not made absolute), so that relative queries and collected sets share one base.",
-        "Trusted: CPython ast, re._parser, sa/relang.py, sa/tab.py, sa/fold.py. Names exclude '/', NUL, CR, LF.",
+        " oracle and is not decided. VCS membership tests (is_ignored / is_submodule of every strategy) compare paths of the same base (units-of-measure check: query made root-relative, collected sets root-relative); the report's file list is subset_files(F) whenever F was given, even empty. Paths printed by VCS commands keep their exact spelling (no whitespace strip, no lossy decode). FileReport equality, if defined, includes the file's full path (reports are collected in a set). The argv of git's ignored-files query equals the confirmed flag set, and VCS commands inherit the caller's environment (env= must extend os.environ). is_submodule answers from the VCS's own list only (no probe of the tree). A VCS strategy keeps the project root spelled as given (not resolved, not made absolute), so that relative queries and collected sets share one base. Strategies that know the tracked files (Jujutsu, Pijul) answer 'ignored' exactly for untracked paths; every VCS listing is taken in the project root (cwd forwarded to the child process). A path that is neither a regular file nor a directory is not a covered file.",
+        "Trusted: CPython ast, re._parser, sa/relang.py, sa/tab.py, sa/fold.py. Names exclude '/' and NUL (line breaks included: `$` is modelled as CPython applies it, also before one final newline).",
         "DESIGN.md §3 C03",
     ),
     "C05": (
@@ -125,7 +125,7 @@ CHECKS: dict[str, tuple[str, str, str, str]] = {
         " JSON lists; the plain verdict sentence follows is_compliant; ProjectSubsetReport's verdict, filters and"
         " propagation agree with ProjectReport's on the four shared categories and with what format_lines_subset"
         " prints; lint-file exits 0 iff compliant on every path and rejects outside files before generating."
-        " Textual equality of rendered paths is not decided. The subset report examines subset_files(F) whenever F was given (an empty F is not 'no subset'). Nothing is carried from one examined file to the next (task purity shared with C14). A rendering loop does not range over a re-keyed dictionary that can collapse (identifier, file) pairs. Inherits C03 (covered set).",
+        " Textual equality of rendered paths is not decided. The subset report examines subset_files(F) whenever F was given (an empty F is not 'no subset'). Nothing is carried from one examined file to the next (task purity shared with C14). A rendering loop does not range over a re-keyed dictionary that can collapse (identifier, file) pairs. Inherits C03 (covered set). Each output option echoes the text of its own formatter applied to the generated report (decision table of the lint / lint-file commands, R9); format_json hands json.dumps a handler that turns sets into lists and paths into strings (R10); each part of the plain report's file partition is written element by element.",
         "Trusted: ast, sa/tab.py.",
         "DESIGN.md §3 C13",
     ),
@@ -170,7 +170,7 @@ CHECKS: dict[str, tuple[str, str, str, str]] = {
         " keyword arguments of template.render ⊆ variables of the default template, with equal tag literals on both"
         " sides; unchanged forwarding of every option along the five-function annotate chain (rename table); the"
         " .license-target and comment-style decision tables; sanity of the folded style tables (29 classes, 261+64"
-        " map entries). That rendering plus commenting round-trips every value is run-time behaviour and not decided. Every jinja2 Environment is constructed without autoescape / finalize / extensions (values are written verbatim). The multi-line writer refuses every text containing the style's terminator (whose table entry carries no blanks) and no style overrides the writer methods or their helper predicates. The header finder's predicate sees one comment at a time, never the ignore markers of the whole file (R10, recorded finding); a header redirected to a new .license sibling hides what the file itself declares (R11, recorded finding, shared with C09). Each result of the shared expression parser is None-checked before it is stored or returned (an empty text parses to None; R12, shared with C02 and C04). Inherits C02 (tag reading) and C20 (notice building).",
+        " map entries). That rendering plus commenting round-trips every value is run-time behaviour and not decided. Every jinja2 Environment is constructed without autoescape / finalize / extensions (values are written verbatim). The multi-line writer refuses every text containing the style's terminator (whose table entry carries no blanks) and no style overrides the writer methods or their helper predicates. The header finder's predicate sees one comment at a time, never the ignore markers of the whole file (R10, recorded finding); a header redirected to a new .license sibling hides what the file itself declares (R11, recorded finding, shared with C09). Each result of the shared expression parser is None-checked before it is stored or returned (an empty text parses to None; R12, shared with C02 and C04). Inherits C02 (tag reading) and C20 (notice building). Every entry of the extension and file-name tables is found by the key get_comment_style computes for a file of that type (R15); the header finder scans no further than the linter's window reads (R14, recorded finding).",
         "Trusted: ast, sa/tab.py, sa/fold.py, Jinja2's parser (no rendering).",
         "DESIGN.md §3 C07",
     ),
@@ -180,7 +180,7 @@ CHECKS: dict[str, tuple[str, str, str, str]] = {
         " (newline=''), line endings are detected before normalisation and the same variable is the newline= of the"
         " write to the same file; that shebang extraction precedes header creation and feeds `before`; that the three"
         " text sections are chained slices of one string; that a BOM is split off before processing and written back"
-        " first. Byte-for-byte preservation of arbitrary bodies is run-time string behaviour and not decided. Every comment_at_first_character returns a prefix of its argument (its length is used as the cut offset). A first-line declaration is split off a block only when nothing but blanks precedes that block (decision table of find_and_replace_header). The header text is proven encodable before the truncating open (shared with C11-R10). The file is read strictly (no errors= mode that rewrites undecodable bytes); questions about '\\n' are asked of the normalised text only; the operands of place_header are bound only by the finder, constants and _extract_shebang (another mechanism: not decided, exit 2). The line-ending detector is read as a model (presence priority list or frequency count with CRLF subtracted, over the whole text): presence alone cannot tell an LF file with a stray CR from a CR file.",
+        " first. Byte-for-byte preservation of arbitrary bodies is run-time string behaviour and not decided. Every comment_at_first_character returns a prefix of its argument (its length is used as the cut offset). A first-line declaration is split off a block only when nothing but blanks precedes that block (decision table of find_and_replace_header). The header text is proven encodable before the truncating open (shared with C11-R10). The file is read strictly (no errors= mode that rewrites undecodable bytes); questions about '\\n' are asked of the normalised text only; the operands of place_header are bound only by the finder, constants and _extract_shebang (another mechanism: not decided, exit 2). The line-ending detector is read as a model (presence priority list or frequency count with CRLF subtracted, over the whole text): presence alone cannot tell an LF file with a stray CR from a CR file. _extract_shebang is held to a structural model (which iterator cuts the text into lines: only a newline ends a line); the loop over a style's SHEBANGS table is left only from a matching branch.",
         "Trusted: ast, sa/tab.py.",
         "DESIGN.md §3 C08",
     ),
@@ -191,7 +191,7 @@ CHECKS: dict[str, tuple[str, str, str, str]] = {
         " header raises instead of being dropped, that ReuseInfo.union covers every set field, copy preserves"
         " unspecified fields, the helper predicates equal their formulas, every .copy() call names only dataclass"
         " fields, --skip-existing has no effect, and the post-render check (shared with C07). Monotonicity over"
-        " arbitrary histories of header shapes is not decided. Template environments write re-rendered information verbatim (shared with C07). Redirecting the header to a new .license sibling must carry over what the file declares itself (R9, recorded finding). Inherits C07 and its layers.",
+        " arbitrary histories of header shapes is not decided. Template environments write re-rendered information verbatim (shared with C07). Redirecting the header to a new .license sibling must carry over what the file declares itself (R9, recorded finding). Inherits C07 and its layers. Content that the header finder does not recognise is handed on unchanged and never discarded (R11, recorded finding for .license side files).",
         "Trusted: ast, sa/tab.py.",
         "DESIGN.md §3 C09",
     ),
@@ -216,7 +216,7 @@ CHECKS: dict[str, tuple[str, str, str, str]] = {
         " lie within what click turns into a diagnostic; each other pair is a violation unless it is one of nine named,"
         " reasoned infeasible origins whose side conditions are checked. Plus: parsed TOML values are type-checked"
         " before being iterated/indexed, the per-file isolation handler is as broad as Exception, parse errors carry"
-        " or receive the file name. OS faults outside the modelled exceptions are not decided. Bytes are decoded with an error mode whose result can be encoded again (no surrogateescape / surrogatepass). str.format is applied to constant format strings only, and a format spec only to str / int / float values (mypy type where not evident); ordering values whose element type is Any counts as a TypeError source. Every REUSE.toml glob - also one whose meaning is unspecified - translates to a well-formed regular expression (shared with C05). Presence of a TOML key is decided by `is None`, never by truthiness; set() over raw converter parameters and constant indices into split text are exception sources (T2).",
+        " or receive the file name. OS faults outside the modelled exceptions are not decided. Bytes are decoded with an error mode whose result can be encoded again (no surrogateescape / surrogatepass). str.format is applied to constant format strings only, and a format spec only to str / int / float values (mypy type where not evident); ordering values whose element type is Any counts as a TypeError source. Every REUSE.toml glob - also one whose meaning is unspecified - translates to a well-formed regular expression (shared with C05). Presence of a TOML key is decided by `is None`, never by truthiness; set() over raw converter parameters and constant indices into split text are exception sources (T2). A type check of a value taken from the parsed TOML has a consequence (one of its branches raises or returns).",
         "Trusted: ast, mypy's resolution and MROs, table T2. Known findings are keyed by exception and origin construct.",
         "DESIGN.md §3 C16",
     ),
@@ -227,7 +227,7 @@ CHECKS: dict[str, tuple[str, str, str, str]] = {
         " the three template arguments are sorted (so identical arguments give identical headers under any hash seed);"
         " that for none of the 29 folded comment styles the multi-line opener starts with the single-line marker while"
         " single-line detection runs first (the tool must find the header it wrote); that the comment writer and the"
-        " block finder agree; and the no-separator cell of place_header. Byte identity for all bodies is not decided. The year range annotate writes is already in the merger's canonical form (get_year table shared with C20). place_header receives bool(header) as the existing-header flag (shared with C08). Requested --copyright / --contributor texts pass a blank-stripping normalisation on every flow into ReuseInfo (the form the reader returns), else the second run adds the line again. Inherits C07 and C08 and their layers.",
+        " block finder agree; and the no-separator cell of place_header. Byte identity for all bodies is not decided. The year range annotate writes is already in the merger's canonical form (get_year table shared with C20). place_header receives bool(header) as the existing-header flag (shared with C08). Requested --copyright / --contributor texts pass a blank-stripping normalisation on every flow into ReuseInfo (the form the reader returns), else the second run adds the line again. Inherits C07 and C08 and their layers. With --merge-copyrights every path of create_header hands merged lines to the renderer, also the path without an existing header (R10).",
         "Trusted: ast, mypy types, sa/taint.py, sa/fold.py, sa/tab.py, canonisers of table T3.",
         "DESIGN.md §3 C10",
     ),
